@@ -98,7 +98,8 @@ def msh_text(v, mname, skip=None):
 def message_nodes(ref, which='required', top=True):
     """nodes ('SEG', name) / ('GRP', name, [nodes]) of an instance with the required children only, or all children once"""
     out = []
-    for (name, cref, (mn, mx), kind) in ref[1]:
+    # a 'choice' is instantiated by one alternative (the first)
+    for (name, cref, (mn, mx), kind) in (ref[1][:1] if ref[0] == 'choice' else ref[1]):
         if top and name == 'MSH':
             continue
         if which == 'required' and mn < 1:
